@@ -123,3 +123,38 @@ pub fn decompose_abs(a: u128) -> (u64, u64, u64, u64, u64, u64, u64) {
         (a % NS_US as u128) as u64,
     )
 }
+
+/// Parses `YYYY-MM-DDTHH:MM:SS[.f{1..9}] SCALE` (the documented default text form). Harness's own parser.
+pub fn parse_iso_with_scale(s: &str) -> Option<(Fields, String)> {
+    let (dt, scale) = s.rsplit_once(' ')?;
+    let (date, time) = dt.split_once('T')?;
+    let mut it = date.rsplitn(3, '-');
+    let d: u32 = it.next()?.parse().ok()?;
+    let m: u32 = it.next()?.parse().ok()?;
+    let y: i64 = it.next()?.parse().ok()?;
+    let (hms, frac) = match time.split_once('.') {
+        Some((a, b)) => (a, Some(b)),
+        None => (time, None),
+    };
+    let mut t = hms.split(':');
+    let h: u32 = t.next()?.parse().ok()?;
+    let mi: u32 = t.next()?.parse().ok()?;
+    let sec: u32 = t.next()?.parse().ok()?;
+    if t.next().is_some() {
+        return None;
+    }
+    let ns = match frac {
+        None => 0,
+        Some(f) => {
+            if f.is_empty() || f.len() > 9 || !f.bytes().all(|b| b.is_ascii_digit()) {
+                return None;
+            }
+            f.parse::<u32>().ok()? * 10u32.pow(9 - f.len() as u32)
+        }
+    };
+    Some((Fields { y, m, d, h, mi, s: sec, ns }, scale.to_string()))
+}
+
+pub fn fields_valid(f: &Fields) -> bool {
+    cal::valid_date(f.y, f.m, f.d) && f.h < 24 && f.mi < 60 && f.s < 60 && f.ns < 1_000_000_000
+}
